@@ -1,6 +1,7 @@
 #![feature(allocator_api)]
 #![allow(unused)]
 use vstd::prelude::*;
+use std::sync::Arc;
 use vstd::atomic_ghost::*;
 verus! {
 // ---- unit prelude ----
@@ -186,6 +187,7 @@ impl TokenBucketBudget {
         requires initial_tokens <= max_tokens, max_tokens <= 0xFFFF_FFFF_FFFF,   // domain: max_tokens x 1000 representable
         ensures r.wf(),   // #starts_funded_with_initial_and_within_max [C08]
             r.initial@ == initial_tokens * 1000,   // #ghost_initial
+            r.max_tokens == max_tokens * 1000,   // #capacity_is_exactly_max_tokens [C08]
     //@body TokenBucketBudget::new
 
     #[verifier::exec_allows_no_decreases_clause]
@@ -224,6 +226,66 @@ impl AimdBudget {
         requires self.wf(),
         ensures r <= self.limit_controller.config.max_limit,   // #reported_balance_within_max [C08]
     //@body AimdBudget::balance@RetryBudget
+}
+
+// ===== budget builders (C08) =====
+pub struct RetryBudgetBuilder { pub p: u8 }
+pub struct TokenBucketBuilder { pub tokens_per_second: f64, pub max_tokens: usize, pub initial_tokens: Option<usize> }
+pub struct AimdBudgetBuilder { pub min_budget: usize, pub max_budget: usize, pub deposit_amount: usize, pub withdraw_amount: usize, pub decrease_factor: f64 }
+impl RetryBudgetBuilder {
+    pub fn token_bucket(self) -> (r: TokenBucketBuilder)
+        ensures r.initial_tokens is None && r.max_tokens >= 1,   // #token_bucket_defaults_start_full [C08]
+    //@body RetryBudgetBuilder::token_bucket
+    pub fn aimd(self) -> (r: AimdBudgetBuilder)
+        ensures r.min_budget <= r.max_budget && r.deposit_amount >= 1 && r.withdraw_amount >= 1,   // #aimd_defaults_are_ordered_and_positive [C08]
+    //@body RetryBudgetBuilder::aimd
+}
+impl TokenBucketBuilder {
+    pub fn tokens_per_second(self, rate: f64) -> (r: Self)
+        ensures r.max_tokens == self.max_tokens && r.initial_tokens == self.initial_tokens,   // #keeps_every_other_setting [C08]
+    //@body TokenBucketBuilder::tokens_per_second
+    pub fn max_tokens(self, max: usize) -> (r: Self)
+        ensures r.max_tokens == max,   // #sets_max_tokens [C08]
+            r.tokens_per_second == self.tokens_per_second && r.initial_tokens == self.initial_tokens,   // #keeps_every_other_setting [C08]
+    //@body TokenBucketBuilder::max_tokens
+    pub fn initial_tokens(self, initial: usize) -> (r: Self)
+        ensures r.initial_tokens == Some(initial),   // #sets_initial_tokens [C08]
+            r.tokens_per_second == self.tokens_per_second && r.max_tokens == self.max_tokens,   // #keeps_every_other_setting [C08]
+    //@body TokenBucketBuilder::initial_tokens
+    pub fn build(self) -> (r: Arc<TokenBucketBudget>)
+        requires self.max_tokens <= 0xFFFF_FFFF_FFFF, self.initial_tokens is Some ==> self.initial_tokens->0 <= self.max_tokens,
+        ensures r.wf(),   // #built_budget_is_well_formed [C08]
+            r.max_tokens == self.max_tokens * 1000,   // #capacity_is_exactly_max_tokens [C08]
+            r.initial@ == (if self.initial_tokens is Some { self.initial_tokens->0 } else { self.max_tokens }) * 1000,   // #starts_with_initial_tokens_or_full [C08]
+    //@body TokenBucketBuilder::build
+}
+impl AimdBudgetBuilder {
+    pub fn min_budget(self, min: usize) -> (r: Self)
+        ensures r.min_budget == min,   // #sets_min_budget [C08]
+            r.max_budget == self.max_budget && r.deposit_amount == self.deposit_amount && r.withdraw_amount == self.withdraw_amount && r.decrease_factor == self.decrease_factor,   // #keeps_every_other_setting [C08]
+    //@body AimdBudgetBuilder::min_budget
+    pub fn max_budget(self, max: usize) -> (r: Self)
+        ensures r.max_budget == max,   // #sets_max_budget [C08]
+            r.min_budget == self.min_budget && r.deposit_amount == self.deposit_amount && r.withdraw_amount == self.withdraw_amount && r.decrease_factor == self.decrease_factor,   // #keeps_every_other_setting [C08]
+    //@body AimdBudgetBuilder::max_budget
+    pub fn deposit_amount(self, amount: usize) -> (r: Self)
+        ensures r.deposit_amount == amount,   // #sets_deposit_amount [C08]
+            r.min_budget == self.min_budget && r.max_budget == self.max_budget && r.withdraw_amount == self.withdraw_amount && r.decrease_factor == self.decrease_factor,   // #keeps_every_other_setting [C08]
+    //@body AimdBudgetBuilder::deposit_amount
+    pub fn withdraw_amount(self, amount: usize) -> (r: Self)
+        ensures r.withdraw_amount == amount,   // #sets_withdraw_amount [C08]
+            r.min_budget == self.min_budget && r.max_budget == self.max_budget && r.deposit_amount == self.deposit_amount && r.decrease_factor == self.decrease_factor,   // #keeps_every_other_setting [C08]
+    //@body AimdBudgetBuilder::withdraw_amount
+    pub fn decrease_factor(self, factor: f64) -> (r: Self)
+        ensures r.decrease_factor == factor,   // #sets_decrease_factor [C08]
+            r.min_budget == self.min_budget && r.max_budget == self.max_budget && r.deposit_amount == self.deposit_amount && r.withdraw_amount == self.withdraw_amount,   // #keeps_every_other_setting [C08]
+    //@body AimdBudgetBuilder::decrease_factor
+    pub fn build(self) -> (r: Arc<AimdBudget>)
+        requires self.min_budget <= self.max_budget, self.max_budget <= 0x20_0000_0000_0000, f64_unit(self.decrease_factor),
+        ensures r.wf(),   // #built_budget_is_well_formed [C08]
+            r.deposit_amount == self.deposit_amount && r.withdraw_amount == self.withdraw_amount,   // #cost_and_refund_are_exactly_what_was_set [C08]
+            r.limit_controller.config.min_limit == self.min_budget && r.limit_controller.config.max_limit == self.max_budget,   // #bounds_are_exactly_what_was_set [C08]
+    //@body AimdBudgetBuilder::build
 }
 fn main() {}
 }
